@@ -67,7 +67,8 @@ class Check:
                 knownhits.append((i, kmap[i["key"]]))
             else:
                 viol.append(i)
-        os.makedirs(os.path.join(VERIF, "evidence"), exist_ok=True)
+        evdir = os.environ.get("ISA_EVIDENCE_DIR") or os.path.join(VERIF, "evidence")
+        os.makedirs(evdir, exist_ok=True)
         wall = time.time() - self.t0
         ntot = len(self.instances)
         distinct = len({(i["rule"], i["site"], i["what"]) for i in self.instances if i.get("nontrivial")})
@@ -107,7 +108,7 @@ class Check:
             "level": self.level, "coverage": cov, "assumptions": self.assumptions,
             "wall_s": round(wall, 3), "violations": len(viol),
         }
-        with open(os.path.join(VERIF, "evidence", self.pid + ".json"), "w") as f:
+        with open(os.path.join(evdir, self.pid + ".json"), "w") as f:
             json.dump(ev, f, indent=1)
         for i, k in knownhits:
             print("KNOWN-FINDING: property=%s %s [%s at %s]" % (self.pid, k.get("what", i["what"]), i["rule"], i["site"]))
@@ -115,7 +116,7 @@ class Check:
               % (self.pid, ntot, len(self.functions), len(self.units), len(viol) + len(knownhits),
                  len(knownhits), wall))
         if viol:
-            rp = os.path.join(VERIF, "evidence", self.pid + ".replay.json")
+            rp = os.path.join(evdir, self.pid + ".replay.json")
             with open(rp, "w") as f:
                 json.dump({"property": self.pid, "violations": viol}, f, indent=1)
             for i in viol:
